@@ -44,9 +44,14 @@ def main():
             ck.e2('core-%s-1x3' % measure, h_core.make(dict(
                 entry='set_sim_join', measure=measure, nl=1, nr=3, k=3, thresholds=[0.5, 0.8],
                 comp_ops=['>='], props=P)), bounds=dict(rows='1x3', k=3))
-            ck.e2('core-contract-%s' % measure, h_core.make(dict(
-                entry='set_sim_join', measure=measure, nl=1, nr=2, k=3, kernel='contract',
-                comp_ops=['>=', '>', '='], props=P)), bounds=dict(rows='1x2', k=3, threshold='symbolic, kernel under K'))
+            if measure == 'JACCARD':
+                ck.e2('core-contract-%s' % measure, h_core.make(dict(
+                    entry='set_sim_join', measure=measure, nl=1, nr=2, k=3, kernel='contract',
+                    comp_ops=['>='], props=P)), bounds=dict(rows='1x2', k=3, threshold='symbolic, kernel under K'))
+            else:
+                ck.e2('core-contract-%s-1x1-k4' % measure, h_core.make(dict(
+                    entry='set_sim_join', measure=measure, nl=1, nr=1, k=4, kernel='contract',
+                    comp_ops=['>=', '>', '='], props=P)), bounds=dict(rows='1x1', k=4, threshold='symbolic, kernel under K'))
     else:
         ck.e2('core-contract-JACCARD', h_core.make(dict(
             entry='set_sim_join', measure='JACCARD', nl=1, nr=2, k=2, kernel='contract',
